@@ -302,70 +302,86 @@ Definition fq_shift_pinned (a b : T) : T :=
   let disc := sv_9 * a * a - sv_24 * b in
   if disc >=? f0 then sv_m2 * b / (f3 * a + fcopysign (fsqrt disc) a) else sv_mquarter * a.
 
+(* factor_quartic_inner, cut into named pieces (same operations in the same order):
+   fq_finish   the Newton polish of the four coefficients
+   fq_neg      the branch d_2 < 0 (two quadratics with different linear coefficients)
+   fq_zero     the branch d_2 = 0 (or negligible)
+   fq_tail     everything after phi (the dominant root of the resolvent cubic) is known *)
+Definition fq_finish (a b c d : T) (alpha_1 beta_1 alpha_2 beta_2 : T) : option ((T * T) * (T * T)) :=
+  Some (fq_newton 8 a b c d alpha_1 beta_1 alpha_2 beta_2
+          (calc_eps_t a b c d alpha_1 beta_1 alpha_2 beta_2)).
+
+Definition fq_neg (a b c d : T) (l_1 l_3 d_2 l_2 : T) : option ((T * T) * (T * T)) :=
+  let sq := fsqrt (- d_2) in
+  let alpha_1 := l_1 + sq in
+  let beta_1 := l_3 + sq * l_2 in
+  let alpha_2 := l_1 - sq in
+  let beta_2 := l_3 - sq * l_2 in
+  let '(beta_1, beta_2) :=
+    if fabs beta_2 <? fabs beta_1 then (beta_1, d / beta_1)
+    else if fabs beta_2 >? fabs beta_1 then (d / beta_2, beta_2)
+    else (beta_1, beta_2) in
+  if fabs alpha_1 <>? fabs alpha_2 then
+    let cands :=
+      if fabs alpha_1 <? fabs alpha_2 then
+        let a1_cand_1 := (c - beta_1 * alpha_2) / beta_2 in
+        let a1_cand_2 := (b - beta_2 - beta_1) / alpha_2 in
+        let a1_cand_3 := a - alpha_2 in
+        (* cand 3 is first because it is infallible *)
+        [(a1_cand_3, alpha_2); (a1_cand_1, alpha_2); (a1_cand_2, alpha_2)]
+      else
+        let a2_cand_1 := (c - alpha_1 * beta_2) / beta_1 in
+        let a2_cand_2 := (b - beta_2 - beta_1) / alpha_1 in
+        let a2_cand_3 := a - alpha_1 in
+        [(alpha_1, a2_cand_3); (alpha_1, a2_cand_1); (alpha_1, a2_cand_2)] in
+    let '(alpha_1, alpha_2, _) :=
+      fq_pick_alpha a b c beta_1 beta_2 true cands (alpha_1, alpha_2, f0) in
+    fq_finish a b c d alpha_1 beta_1 alpha_2 beta_2
+  else fq_finish a b c d alpha_1 beta_1 alpha_2 beta_2.
+
+Definition fq_zero (a b c d : T) (l_1 l_3 : T) : option ((T * T) * (T * T)) :=
+  let d_3 := d - l_3 * l_3 in
+  let alpha_1 := l_1 in
+  let beta_1 := l_3 + fsqrt (- d_3) in
+  let alpha_2 := l_1 in
+  let beta_2 := l_3 - fsqrt (- d_3) in
+  let '(beta_1, beta_2) :=
+    if fabs beta_1 >? fabs beta_2 then (beta_1, d / beta_1)
+    else if fabs beta_2 >? fabs beta_1 then (d / beta_2, beta_2)
+    else (beta_1, beta_2) in
+  fq_finish a b c d alpha_1 beta_1 alpha_2 beta_2.
+
+(* repair commit f907a58: d_2 below its own rounding level is treated as zero (before it the
+   code tested [d_2 < 0] / [d_2 == 0] only, "TODO: handle case d_2 is very small?") *)
+Definition fq_d2_negligible (b phi l_1 d_2 : T) : bool :=
+  fabs d_2 <=? sv_8 * sv_EPS_M * fmax (fmax (fabs (sv_two_thirds * b)) (fabs phi)) (l_1 * l_1).
+
+Definition fq_tail (a b c d phi : T) : option ((T * T) * (T * T)) :=
+  let l_1 := a * fhalf in
+  let l_3 := sv_sixth * b + fhalf * phi in
+  let delt_2 := c - a * l_3 in
+  let d_2_cand_1 := sv_two_thirds * b - phi - l_1 * l_1 in
+  let l_2_cand_1 := fhalf * delt_2 / d_2_cand_1 in
+  let l_2_cand_2 := f2 * (d - l_3 * l_3) / delt_2 in
+  let d_2_cand_2 := fhalf * delt_2 / l_2_cand_2 in
+  let d_2_cand_3 := d_2_cand_1 in
+  let l_2_cand_3 := l_2_cand_2 in
+  let '(d_2, l_2, _) :=
+    fq_pick_dl b c d l_1 l_3 true
+      [(d_2_cand_1, l_2_cand_1); (d_2_cand_2, l_2_cand_2); (d_2_cand_3, l_2_cand_3)]
+      (f0, f0, f0) in
+  let d_2_negligible := fq_d2_negligible b phi l_1 d_2 in
+  if (d_2 <? f0) && negb d_2_negligible then fq_neg a b c d l_1 l_3 d_2 l_2
+  else if (d_2 =? f0) || d_2_negligible then fq_zero a b c d l_1 l_3
+  else None.
+
 Definition factor_quartic_inner (a b c d : T) (rescale : bool) : option ((T * T) * (T * T)) :=
   let '(g_prime, h_prime) := fq_gh a b c d rescale in
   if negb (fis_finite g_prime && fis_finite h_prime) then None
   else
     let phi := depressed_cubic_dominant g_prime h_prime in
     let phi := if rescale then phi * sv_K_C else phi in
-    let l_1 := a * fhalf in
-    let l_3 := sv_sixth * b + fhalf * phi in
-    let delt_2 := c - a * l_3 in
-    let d_2_cand_1 := sv_two_thirds * b - phi - l_1 * l_1 in
-    let l_2_cand_1 := fhalf * delt_2 / d_2_cand_1 in
-    let l_2_cand_2 := f2 * (d - l_3 * l_3) / delt_2 in
-    let d_2_cand_2 := fhalf * delt_2 / l_2_cand_2 in
-    let d_2_cand_3 := d_2_cand_1 in
-    let l_2_cand_3 := l_2_cand_2 in
-    let '(d_2, l_2, _) :=
-      fq_pick_dl b c d l_1 l_3 true
-        [(d_2_cand_1, l_2_cand_1); (d_2_cand_2, l_2_cand_2); (d_2_cand_3, l_2_cand_3)]
-        (f0, f0, f0) in
-    let finish (alpha_1 beta_1 alpha_2 beta_2 : T) :=
-      Some (fq_newton 8 a b c d alpha_1 beta_1 alpha_2 beta_2
-              (calc_eps_t a b c d alpha_1 beta_1 alpha_2 beta_2)) in
-    (* repair commit f907a58: d_2 below its own rounding level is treated as zero (before it the
-       code tested [d_2 < 0] / [d_2 == 0] only, "TODO: handle case d_2 is very small?") *)
-    let d_2_negligible :=
-      fabs d_2 <=? sv_8 * sv_EPS_M * fmax (fmax (fabs (sv_two_thirds * b)) (fabs phi)) (l_1 * l_1) in
-    if (d_2 <? f0) && negb d_2_negligible then
-      let sq := fsqrt (- d_2) in
-      let alpha_1 := l_1 + sq in
-      let beta_1 := l_3 + sq * l_2 in
-      let alpha_2 := l_1 - sq in
-      let beta_2 := l_3 - sq * l_2 in
-      let '(beta_1, beta_2) :=
-        if fabs beta_2 <? fabs beta_1 then (beta_1, d / beta_1)
-        else if fabs beta_2 >? fabs beta_1 then (d / beta_2, beta_2)
-        else (beta_1, beta_2) in
-      if fabs alpha_1 <>? fabs alpha_2 then
-        let cands :=
-          if fabs alpha_1 <? fabs alpha_2 then
-            let a1_cand_1 := (c - beta_1 * alpha_2) / beta_2 in
-            let a1_cand_2 := (b - beta_2 - beta_1) / alpha_2 in
-            let a1_cand_3 := a - alpha_2 in
-            [(a1_cand_3, alpha_2); (a1_cand_1, alpha_2); (a1_cand_2, alpha_2)]
-          else
-            let a2_cand_1 := (c - alpha_1 * beta_2) / beta_1 in
-            let a2_cand_2 := (b - beta_2 - beta_1) / alpha_1 in
-            let a2_cand_3 := a - alpha_1 in
-            [(alpha_1, a2_cand_3); (alpha_1, a2_cand_1); (alpha_1, a2_cand_2)] in
-        let '(alpha_1, alpha_2, _) :=
-          fq_pick_alpha a b c beta_1 beta_2 true cands (alpha_1, alpha_2, f0) in
-        finish alpha_1 beta_1 alpha_2 beta_2
-      else finish alpha_1 beta_1 alpha_2 beta_2
-    else if (d_2 =? f0) || d_2_negligible then
-      let d_3 := d - l_3 * l_3 in
-      let alpha_1 := l_1 in
-      let beta_1 := l_3 + fsqrt (- d_3) in
-      let alpha_2 := l_1 in
-      let beta_2 := l_3 - fsqrt (- d_3) in
-      let '(beta_1, beta_2) :=
-        if fabs beta_1 >? fabs beta_2 then (beta_1, d / beta_1)
-        else if fabs beta_2 >? fabs beta_1 then (d / beta_2, beta_2)
-        else (beta_1, beta_2) in
-      finish alpha_1 beta_1 alpha_2 beta_2
-    else None.
+    fq_tail a b c d phi.
 
 (** ** solve_quartic_inner, solve_quartic *)
 
